@@ -336,16 +336,23 @@ Definition tpl_interp_dict (fs : list field) (o : pobj) : result inst :=
   do kw <- interp_dict_loop o fs [];
   instantiate fs [] kw.
 
-Fixpoint zip_handle (fs : list field) (vs : list V) : result (list V) :=
+(* structure_attrs_fromtuple: the payload is zipped with the attributes.  [by_kw]: are keyword-only attributes
+   passed by keyword and init=False attributes left out of the call?  (translator T1; false = finding F27:
+   everything is passed positionally, in attribute order) *)
+Fixpoint zip_split (by_kw : bool) (fs : list field) (vs : list V) : result (list V * list (N * V)) :=
   match fs, vs with
-  | f :: r, v :: vs' => do w <- hs (f_name f) v; do rest <- zip_handle r vs'; Ok (w :: rest)
-  | _, _ => Ok []
+  | f :: r, v :: vs' =>
+      if by_kw && negb (f_init f) then zip_split by_kw r vs'        (* occupies a position, is not converted *)
+      else
+        do w <- hs (f_name f) v; do rest <- zip_split by_kw r vs';
+        if by_kw && f_kw_only f then Ok (fst rest, (f_alias f, w) :: snd rest) else Ok (w :: fst rest, snd rest)
+  | _, _ => Ok ([], [])
   end.
 
-Definition tpl_interp_tuple (fs : list field) (o : pobj) : result inst :=
+Definition tpl_interp_tuple (by_kw : bool) (fs : list field) (o : pobj) : result inst :=
   do vs <- o_iter o;
-  do args <- zip_handle fs vs;
-  instantiate fs args [].
+  do pk <- zip_split by_kw fs vs;
+  instantiate fs (fst pk) (snd pk).
 
 Fixpoint un_interp_dict (fs : list field) (i : inst) : result (list (N * V)) :=
   match fs with
